@@ -84,7 +84,6 @@ theorem Pw.of_setAt {R : FLink F → FLink F → Prop} (hr : ∀ l, R l l) (ls :
       refine .cons (by simpa using h) ?_
       have : (List.mapIdx (fun j x => if j + 1 = 0 then l' else x) rest) = rest := by
         apply List.ext_getElem?; intro j; simp [List.getElem?_mapIdx]
-        cases rest[j]? <;> rfl
       rw [this]; exact Pw.refl hr rest
     | succ i =>
       simp only [List.getElem?_cons_succ] at h0
